@@ -1184,6 +1184,11 @@ peg::parser! {
             }
 
         pub(crate) rule literal_array_element() -> (Option<String>, String) =
+            // N.B. The key may contain quoted `]` characters (e.g., `["x]y"]=1`), so it is
+            // matched the same way as the subscript of an array element name.
+            "[" inner:array_index() "]=" value:$([_]*) {
+                (Some(inner.to_owned()), value.to_owned())
+            } /
             "[" inner:$((!"]" [_])*) "]=" value:$([_]*) {
                 (Some(inner.to_owned()), value.to_owned())
             } /
